@@ -6,7 +6,7 @@ import ast
 import re
 
 from rules import fwd as R_fwd
-from sa.astutil import call_name, guards_of, is_neg_inf, parent_map, u
+from sa.astutil import call_name, guards_of, is_neg_inf, kwarg, parent_map, u
 from sa.defuse import ReachingDefs
 from sa.model import AnalysisError, own_calls, own_nodes
 from sa.resolve import bind_args
@@ -159,10 +159,15 @@ def run(ctx: Ctx):
            f"first eos is counted, later ones are not)", rel, rw.line, sample=vals2)
 
     # ---- S2 padded and packed kernels agree -----------------------------------------------------------------
+    # both kernels by value first (tables); the dataflow fingerprints below are required only where a table is outside the interpreted fragment
+    table_decided = _seqlp_table(ctx, kt, rel)
+    packed_decided = _seqlp_packed_table(ctx, kp, rel)
+    col.count("packed_table_decided", int(packed_decided))
     ft, rt = _kernel_fingerprint(kt)
     fp, rp = _kernel_fingerprint(kp)
     core = lambda st: [x for x in st if x != "mask|=len-mask"]
-    col.ob("G13", "S2", f"{rel}::sequence_log_probs::kernels-agree", core(ft) == core(fp) and rt == rp and
+    if not (table_decided and packed_decided):
+      col.ob("G13", "S2", f"{rel}::sequence_log_probs::kernels-agree", core(ft) == core(fp) and rt == rp and
            core(ft) == ["log_softmax(-1)", "oov-mask=(hyp<0)|(hyp>=num_classes)", "index:=0 under mask", "gather(hyp)", "fill(0.0)"]
            and rt == ["sum"],
            f"padded kernel: {ft} reduce {rt}; packed kernel: {fp} reduce {rp}; both must log-softmax the scores, mask "
@@ -170,6 +175,8 @@ def run(ctx: Ctx):
            f"neutral element 0.0 and sum", rel, kt.line, sample=dict(padded=ft, packed=fp))
     # the out-of-vocabulary bound is the extent of the class axis: the dimension the scores are normalised over / gathered along
     for kf in (kt, kp):
+        if (table_decided if kf is kt else packed_decided):
+            continue  # (decided by value: the tables hold the token equal to the number of classes, with the other extents different from it)
         rdk = ReachingDefs(kf.node)
         gd = sd = None
         bnd = []
@@ -305,7 +312,6 @@ def run(ctx: Ctx):
             f"tokens are (steps, batch) for dim == 0 and (batch, steps) for dim == 1, so the batch axis is 1 - dim; with a fixed axis "
             f"the packed and the padded form disagree for the other layout") if bad_axes else "", rel,
            bad_axes[0][0].lineno if bad_axes else kp.line, sample=axis_sites)
-    table_decided = _seqlp_table(ctx, kt, rel)
     from . import string_common as _SC7
     _SC7.lens_helper_table(ctx, "S2")
     if not table_decided:
@@ -722,9 +728,26 @@ def _greedy_table(ctx: Ctx, g, rel: str) -> bool:
     return True
 
 
+def _surrogate_log_softmax(it_, x, env):
+    """log_softmax as a table leaf: exact and axis-sensitive - the scores minus their sum along the normalised axis."""
+    import numpy as np
+    from sa.inteval import NotEvaluable
+    nm = call_name(x)
+    fn_form = nm.startswith("torch")
+    a_ = np.asarray(it_.eval(x.args[0] if fn_form else x.func.value, env), dtype=object)
+    rest = list(x.args[1:] if fn_form else x.args)
+    d_ = rest[0] if rest else kwarg(x, "dim")
+    if d_ is None or a_.ndim == 0:
+        raise NotEvaluable("log_softmax without an axis")
+    d_ = int(it_.eval(d_, env))
+    if not -a_.ndim <= d_ < a_.ndim:
+        raise NotEvaluable("log_softmax axis")
+    return a_ - a_.sum(axis=d_, keepdims=True) if a_.size else a_
+
+
 def _seqlp_table(ctx: Ctx, kt, rel: str) -> bool:
     """S2 as a table: the padded kernel of sequence_log_probs interpreted over exact values (sa/interp.py + sa/teval.py; nothing is
-    run; log_softmax is the identity on the given log-probabilities, _lens_from_eos the index of the first eos) for token sequences
+    run; log_softmax is an exact, axis-sensitive surrogate: the scores minus their sum along the normalised axis, _lens_from_eos the index of the first eos) for token sequences
     with the eos in the middle, absent, and after an out-of-vocabulary token, with a junk token after the eos; layouts (T, N),
     (N, T) and (2, T, 2) addressed by positive and negative `dim`; eos given or not. Documented value per sequence: the sum of the
     scores of its tokens up to and including the first eos, an out-of-vocabulary token contributing 0."""
@@ -736,7 +759,7 @@ def _seqlp_table(ctx: Ctx, kt, rel: str) -> bool:
     col = ctx.col
     where = f"{rel}::{kt.qualname}"
     C, EOS = 3, 2
-    seqs = [[1, 2, 0, 7], [0, 1, 0, 1], [5, 1, 2, 0], [2, 2, 1, 0]]
+    seqs = [[1, 2, 0, 7], [0, -1, 0, 1], [3, 1, 2, 0], [2, 2, 1, 0]]  # (3 = the number of classes: the first token beyond the vocabulary)
 
     def first_eos(a, eos, dim):
         a = np.moveaxis(a, dim, -1)
@@ -767,7 +790,7 @@ def _seqlp_table(ctx: Ctx, kt, rel: str) -> bool:
                         if isinstance(x, ast.Call):
                             nm = call_name(x)
                             if nm.endswith("log_softmax"):
-                                return holder["it"].eval(x.args[0] if nm.startswith("torch") else x.func.value, env)
+                                return _surrogate_log_softmax(holder["it"], x, env)
                             if nm == "_lens_from_eos":
                                 b_ = dict(zip(("tok", "eos", "dim"), x.args))
                                 b_.update({k.arg: k.value for k in x.keywords})
@@ -782,7 +805,7 @@ def _seqlp_table(ctx: Ctx, kt, rel: str) -> bool:
                     n_rows += 1
                     d = dim % hyp.ndim
                     hm = np.moveaxis(hyp, d, -1)
-                    lm_ = np.moveaxis(lg, d, -2)
+                    lm_ = np.moveaxis(lg - lg.sum(axis=-1, keepdims=True), d, -2)
                     want = np.empty(hm.shape[:-1], dtype=object)
                     for idx in np.ndindex(hm.shape[:-1]):
                         row = [int(x) for x in hm[idx]]
@@ -802,6 +825,108 @@ def _seqlp_table(ctx: Ctx, kt, rel: str) -> bool:
            (f"with tokens laid out {dict(TN='(steps, batch)', NT='(batch, steps)', ATB='(2, steps, 2)')[bad[0]]}, dim={bad[1]}, eos={bad[2]} the kernel computes "
             f"{_show(bad[3])}; documented (sum of the scores of each sequence's tokens up to and including its first eos, out-of-vocabulary tokens "
             f"contributing 0): {_show(bad[4])}") if bad else "", rel, kt.line, sample=dict(rows=n_rows))
+    return True
+
+
+def _seqlp_packed_table(ctx: Ctx, kp, rel: str) -> bool:
+    """S2 as a table, packed form: the packed kernel of sequence_log_probs interpreted over exact values (sa/interp.py + sa/teval.py;
+    nothing is run; log_softmax is the same exact, axis-sensitive surrogate as in the padded table, pack_padded_sequence / pad_packed_sequence are computed
+    exactly from their documented layout: time-major rows of the sequences still running, sequences in order of non-increasing length) for
+    the packed scores of three sequences of lengths 2, 4, 3 (sorted by the packing, with and without the sort / unsort indices) and of
+    already sorted ones; tokens laid out (steps, batch) with dim = 0 / -2 and (batch, steps) with dim = 1 / -1, including a negative token,
+    the token equal to the number of classes and junk behind the lengths. Documented value per sequence: the sum of the scores of its
+    tokens over its own length, an out-of-vocabulary token contributing 0 - the same numbers the padded kernel gives."""
+    import numpy as np
+    from fractions import Fraction as Fr
+    from sa.interp import Interp
+    from sa.inteval import NotEvaluable
+    from sa.teval import frac_array
+    col = ctx.col
+    where = f"{rel}::{kp.qualname}"
+    C = 3
+    toks = [[1, 2, 0, 7], [0, -1, 3, 1], [2, 1, 2, 0]]  # (N = 3 sequences, T = 4 steps)
+    bad, n_rows = None, 0
+    names = [a.arg for a in kp.node.args.args]
+    if len(names) != 3:
+        return False
+    try:
+        for lens, use_idx in (((2, 4, 3), True), ((4, 3, 2), False), ((4, 4, 1), True)):
+            N, T = len(lens), max(lens)
+            order = sorted(range(N), key=lambda n_: -lens[n_]) if use_idx else list(range(N))
+            inv = [order.index(n_) for n_ in range(N)]
+            lg = np.empty((T, N, C), dtype=object)
+            for idx in np.ndindex(lg.shape):
+                lg[idx] = Fr(1 + sum((k + 2) * (7 ** i) * v for i, (k, v) in enumerate(zip(range(9), idx))), 13)
+            bsz = [sum(1 for n_ in range(N) if lens[n_] > t_) for t_ in range(T)]
+            data = np.array([[lg[t_, order[j_], c_] for c_ in range(C)] for t_ in range(T) for j_ in range(bsz[t_])], dtype=object)
+            packed = (data, frac_array(bsz), frac_array(order) if use_idx else None, frac_array(inv) if use_idx else None)
+            for dims, batch_first in (((0, -2), False), ((1, -1), True)):
+                hyp = frac_array(toks if batch_first else np.array(toks, dtype=object).T.tolist())
+                for dim in dims:
+                    holder = {}
+
+                    def leaf(x, env):
+                        it_ = holder["it"]
+                        if isinstance(x, ast.Call):
+                            nm = call_name(x)
+                            if nm.endswith("log_softmax"):
+                                return _surrogate_log_softmax(it_, x, env)
+                            if nm.endswith("pack_padded_sequence") and len(x.args) >= 2:
+                                a_ = np.asarray(it_.eval(x.args[0], env), dtype=object)
+                                l_ = [int(v_) for v_ in np.asarray(it_.eval(x.args[1], env)).reshape(-1)]
+                                bf = kwarg(x, "batch_first")
+                                bf = bool(it_.eval(bf, env)) if bf is not None else False
+                                if bf:
+                                    a_ = np.moveaxis(a_, 0, 1)
+                                if any(l_[i_] < l_[i_ + 1] for i_ in range(len(l_) - 1)):
+                                    raise NotEvaluable("pack_padded_sequence of unsorted lengths (enforce_sorted)")
+                                if len(l_) != a_.shape[1] or (l_ and max(l_) > a_.shape[0]):
+                                    raise NotEvaluable("pack_padded_sequence: lengths do not fit the tensor")
+                                rows_ = [a_[t_, j_] for t_ in range(max(l_) if l_ else 0) for j_ in range(len(l_)) if l_[j_] > t_]
+                                b_ = [sum(1 for v_ in l_ if v_ > t_) for t_ in range(max(l_) if l_ else 0)]
+                                return (np.array(rows_, dtype=object), frac_array(b_), None, None)
+                            if nm.endswith("SpoofPackedSequence") or nm.endswith("PackedSequence"):
+                                return tuple(it_.eval(a__, env) for a__ in x.args)
+                            if nm.endswith("pad_packed_sequence") and x.args:
+                                ps_ = it_.eval(x.args[0], env)
+                                bf = kwarg(x, "batch_first")
+                                bf = bool(it_.eval(bf, env)) if bf is not None else False
+                                d_ = np.asarray(ps_[0], dtype=object)
+                                b_ = [int(v_) for v_ in np.asarray(ps_[1]).reshape(-1)]
+                                if sum(b_) != d_.shape[0]:
+                                    raise NotEvaluable("pad_packed_sequence: batch sizes do not fit the data")
+                                out_ = np.empty((len(b_), b_[0] if b_ else 0) + d_.shape[1:], dtype=object)
+                                out_[...] = Fr(0)
+                                k_ = 0
+                                for t_, n__ in enumerate(b_):
+                                    for j_ in range(n__):
+                                        out_[t_, j_] = d_[k_]
+                                        k_ += 1
+                                l2_ = [sum(1 for v_ in b_ if v_ > j_) for j_ in range(b_[0] if b_ else 0)]
+                                return (np.moveaxis(out_, 0, 1) if bf else out_, frac_array(l2_))
+                        return None
+                    it = Interp(leaf=leaf, tensors=True)
+                    holder["it"] = it
+                    kind, got = it.run(kp.node, dict(zip(names, (packed, hyp, dim))))
+                    n_rows += 1
+                    want = np.empty((N,), dtype=object)
+                    lgn = lg - lg.sum(axis=-1, keepdims=True)
+                    for n_ in range(N):
+                        want[n_] = sum((lgn[t_, n_, toks[n_][t_]] for t_ in range(lens[n_]) if 0 <= toks[n_][t_] < C), Fr(0))
+                    same = kind == "return" and hasattr(got, "shape") and got.shape == want.shape and np.array_equal(np.asarray(got, dtype=object), want)
+                    if not same and bad is None:
+                        bad = (lens, use_idx, batch_first, dim, got if kind == "return" else f"raise {got}", want)
+    except NotEvaluable:
+        return False
+
+    def _show(v):
+        return str([str(x) for x in np.asarray(v).reshape(-1).tolist()] if hasattr(v, "shape") else v)[:100]
+    col.count("sequence_log_probs_packed_table_rows", n_rows)
+    col.ob("G12", "S2", f"{where}::score-table", bad is None,
+           (f"packed scores of sequences of lengths {bad[0]} ({'with' if bad[1] else 'without'} sort indices), tokens laid out "
+            f"{'(batch, steps)' if bad[2] else '(steps, batch)'}, dim={bad[3]}: the packed kernel computes {_show(bad[4])}; documented (sum of the "
+            f"scores of each sequence's tokens over its own length, out-of-vocabulary tokens contributing 0): {_show(bad[5])}") if bad else "",
+           rel, kp.line, sample=dict(rows=n_rows))
     return True
 
 
@@ -1025,7 +1150,7 @@ def _mutants():
     ]
     D = "_decoding.py"
     return _extra + [
-        M("packed-fill-1", D, "logits = logits.masked_fill(mask, 0.0)\n    logits = torch.nn.utils.rnn.pad_packed_sequence", "logits = logits.masked_fill(mask, 1.0)\n    logits = torch.nn.utils.rnn.pad_packed_sequence", "kernels-agree"),
+        M("packed-fill-1", D, "logits = logits.masked_fill(mask, 0.0)\n    logits = torch.nn.utils.rnn.pad_packed_sequence", "logits = logits.masked_fill(mask, 1.0)\n    logits = torch.nn.utils.rnn.pad_packed_sequence", "score-table"),
         M("padded-oov-one-sided", D, "mask = hyp.lt(0) | hyp.ge(num_classes)\n    if eos is not None:", "mask = hyp.ge(num_classes)\n    if eos is not None:", "kernels-agree"),
         M("eos-excluded", D, "hyp_lens = _lens_from_eos(hyp, eos, dim) + 1", "hyp_lens = _lens_from_eos(hyp, eos, dim)", "score-table"),
         M("eos-mask-strict", D, "len_mask = len_mask >= hyp_lens", "len_mask = len_mask > hyp_lens", "score-table"),
